@@ -485,6 +485,7 @@ pub fn c01_families(tier: &str) -> Vec<SeqSpec> {
     );
     v.push(staggered_family("F-staggered/T300", if t { 6 } else { 4 }, READS));
     v.push(boundary_tables_family("F-boundary-tables/T300", if t { 4 } else { 3 }, READS));
+    v.insert(0, split_pair_parents_family("F-split-pair-parents/F1000", if t { 4 } else { 2 }, READS));
     v.push(l0_nested_family("F-l0-nested/T300", if t { 4 } else { 2 }, READS));
     v.push(l0_overlap_family("F-l0-overlap-low/T300", true, if t { 4 } else { 3 }, READS));
     v.push(l0_overlap_family("F-l0-overlap-high/T300", false, if t { 4 } else { 3 }, READS));
@@ -621,6 +622,7 @@ pub fn c07(tier: &str) -> ! {
     // the extreme byte-string keys (empty, 0x00, 0xff) through deletes and ranged compactions
     fams.push(spec("C07-bytes/T300", &["T300"], vec![vec![], vec![0x00], vec![0xff]], a_c07_small(), if t { 5 } else { 3 }, ck).flush());
     fams.push(boundary_tables_family("C07-boundary-tables/T300", if t { 4 } else { 3 }, ck));
+    fams.insert(0, split_pair_parents_family("C07-split-pair-parents/F1000", if t { 4 } else { 2 }, ck));
     fams.push(l0_nested_family("C07-l0-nested/T300", if t { 4 } else { 2 }, ck));
     fams.push(l0_overlap_family("C07-l0-overlap-low/T300", true, if t { 4 } else { 3 }, ck));
     fams.push(l0_overlap_family("C07-l0-overlap-high/T300", false, if t { 4 } else { 3 }, ck));
@@ -1095,6 +1097,27 @@ pub fn c04(tier: &str) -> ! {
 pub fn hot_key_family(name: &str, cfg: &str, depth: usize, ck: Checks) -> SeqSpec {
     let alphabet = vec![Op::PutMany(1, 130), Op::Put(2, 0), Op::Del(1), Op::Flush, Op::Compact(None, None), Op::Release(0), Op::Put(0, 0)];
     spec(name, &[cfg], k3s(), alphabet, depth, ck).with_setup(vec![Op::Put(0, 0), Op::Put(1, 0), Op::Put(2, 0), Op::Snap, Op::PutMany(1, 130)])
+}
+
+/// A tombstone and the older value of its key in two *adjacent tables of one level* (a snapshot was
+/// alive when they were compacted; the 1120-byte value in front of them made the output end right
+/// behind the tombstone), and two tables one level up of which one overlaps only the first of the
+/// two: a compaction of the other one has the pair as its parent-level inputs and may grow its own
+/// level's inputs - the re-computed parent inputs must still hold both tables of the pair.
+pub fn split_pair_parents_family(name: &str, depth: usize, ck: Checks) -> SeqSpec {
+    let keys: Vec<Vec<u8>> = ["a", "b", "c", "e", "f", "j", "k"].iter().map(|k| k.as_bytes().to_vec()).collect();
+    let setup = vec![
+        Op::Put(0, 0), Op::Put(2, 0), Op::Flush,
+        Op::Put(3, 0), Op::Put(5, 13), Op::Put(6, 0), Op::Flush,
+        Op::Snap,
+        Op::Del(6), Op::Flush,
+        Op::Compact(Some(6), Some(6)),
+        Op::Release(0),
+        Op::Put(5, 0), Op::Flush,
+        Op::Put(1, 0), Op::Put(4, 0), Op::Flush,
+    ];
+    let alphabet = vec![Op::Compact(Some(5), Some(5)), Op::Compact(Some(1), Some(4)), Op::Compact(None, None), Op::Put(6, 0), Op::Del(3), Op::Flush];
+    spec(name, &["F1000"], keys, alphabet, depth, ck).with_setup(setup)
 }
 
 /// C06, sequence part: a three-key batch, a snapshot, then 130 newer versions of the batch's middle
